@@ -245,7 +245,7 @@ def replay(path):
     """re-execute one recorded violation against /repo's current tree; exit 1 if it still fails"""
     v = json.load(open(path))
     rp = v["replay"]
-    chk = lib.Check("C11", "replay", rp.get("seed", 0))
+    chk = lib.Check("C11-replay", "replay", rp.get("seed", 0))
     if rp["binding"] == "B2":
         tracep, recs, _ = random_traces(chk, rp["seed"], rp["nh"], rp["minlen"], rp["maxlen"], "replay.random", only=rp["h"])
         recs = [r for r in recs if r["seq"] <= rp["seq"]]
